@@ -222,6 +222,11 @@ class Run:
         self.t0 = time.time()
         self.work = BUILD / pid
         self.work.mkdir(parents=True, exist_ok=True)
+        for old in (VERIF / "replays").glob(pid + "-*.json") if (VERIF / "replays").exists() else []:
+            try:
+                old.unlink()
+            except OSError:
+                pass
         self.known = load_known(pid)
         self.known_hit = {}
         self.viol = []          # (key, what, replay_path, found_input)
